@@ -11,7 +11,7 @@
 From Coq Require Import Lia.
 From AV Require Import Base.Bytes Base.Outcome Hash.HashModel Spec.SpecOps Tree.Heap Tree.Ops Tree.Script Tree.Script2 Tree.Compat Tree.Serialize
   Tree.IndexProofsW Tree.Index Tree.IndexProofsBase Tree.IndexProofsFrame Tree.IndexProofs Tree.Refs Tree.RefsProofs Tree.RefsAll
-  Tree.IndexProofsNodeInv Tree.IndexProofsAll Tree.RefsProofsSetName Tree.Sort Tree.SortProofsOrder Tree.SortProofsHeap Tree.SortProofsNames Tree.IndexProofsSort.
+  Tree.IndexProofsNodeInv Tree.IndexProofsAll Tree.RefsProofsSetName Tree.Sort Tree.SortProofsOrder Tree.SortProofsHeap Tree.SortProofsNames Tree.IndexProofsSort Tree.Inv Tree.IndexProofsBridge Tree.IndexProofsDup.
 Open Scope string_scope.
 Open Scope list_scope.
 Open Scope N_scope.
@@ -172,6 +172,54 @@ Proof.
   - injection H as <-. auto.
   - destruct Hok as (HF & HK & HP & Hrest). destruct (run2 o w) as [[r w1]| |] eqn:E; try discriminate.
     destruct (C45_inv2_partial w o r w1 HF H4 H5 HX HK HP E) as (A & B & C). eapply IH; eauto.
+Qed.
+
+(* ---------- the whole alphabet except load_buffer *)
+Definition Pending45_3 (o : op2) : bool := match o with OpLoad _ _ _ _ => true | _ => false end.
+(* side conditions: the finding classes of the 26 constructors; NameFirst for the sorts (a SHORT-NAME child of a named element is
+   its first and only one: what the editing API builds); the classes of the copy steps of a duplicate, decided along the run *)
+Definition Side45_2 (w : world) (o : op2) : Prop :=
+  match o with
+  | Op1 o1 => Known04a w o1 = false /\ Known05a w o1 = false
+  | OpSort _ | OpSortModel _ => NameFirst T w
+  | OpDuplicate m => dup_clean T tab_el tab_en check_fn LATEST root_attrs w m = true
+  | _ => True
+  end.
+
+Theorem C45_inv2 w o r w' :
+  TreeInv w -> Inv04 w -> Inv05 T w -> RX w -> Side45_2 w o -> Pending45_3 o = false ->
+  run2 o w = Val (r, w') -> Inv04 w' /\ Inv05 T w' /\ RX w'.
+Proof.
+  intros HT H4 H5 HX HS HP H. pose proof (treeinv_treefacts w HT) as HF.
+  destruct o; try discriminate HP; cbn [Side45_2] in HS.
+  - destruct HS as (K4 & K5). eapply (C45_inv2_partial w (Op1 o)); eauto. cbn [Known45_2]. rewrite K4, K5. reflexivity.
+  - cbn [run_op2] in H. apply wmap2_inv in H as (r0 & H).
+    destruct (C45_sort_step w w' HF H4 H5 HX HS (e_sort_kept h w r0 w' HS H)) as (_ & A & B & C). auto.
+  - cbn [run_op2] in H. apply wmap2_inv in H as (r0 & H).
+    destruct (C45_sort_step w w' HF H4 H5 HX HS (m_sort_kept m w r0 w' HS H)) as (_ & A & B & C). auto.
+  - cbn [run_op2] in H. apply wmap2_inv in H as (r0 & H).
+    destruct (C45_duplicate T tab_el tab_en check_fn LATEST root_attrs TK RootTy m w r0 w' (conj HT (conj H4 (conj H5 HX))) HS H) as (A & B & C & _). auto.
+  - eapply (C45_inv2_partial w (OpSetVersion f v)); eauto.
+  - eapply (C45_inv2_partial w (OpCheckCompat f v)); eauto.
+  - eapply (C45_inv2_partial w (OpSerializeFile f)); eauto.
+  - eapply (C45_inv2_partial w (OpSerializeElem h)); eauto.
+Qed.
+
+Fixpoint steps_ok2a (l : list op2) (w : world) : Prop :=
+  match l with
+  | [] => True
+  | o :: rest =>
+    TreeInv w /\ Side45_2 w o /\ Pending45_3 o = false /\
+    match run2 o w with Val (_, w') => steps_ok2a rest w' | _ => True end
+  end.
+
+Theorem C45_history2 l : forall w w',
+  Inv04 w -> Inv05 T w -> RX w -> steps_ok2a l w -> run_hist2 l w = Val w' -> Inv04 w' /\ Inv05 T w' /\ RX w'.
+Proof.
+  induction l as [|o rest IH]; intros w w' H4 H5 HX Hok H; cbn in *.
+  - injection H as <-. auto.
+  - destruct Hok as (HT & HS & HP & Hrest). destruct (run2 o w) as [[r w1]| |] eqn:E; try discriminate.
+    destruct (C45_inv2 w o r w1 HT H4 H5 HX HS HP E) as (A & B & C). eapply IH; eauto.
 Qed.
 
 End Op2.
